@@ -20,6 +20,7 @@ package service
 //@   ensures[C18.stringparam_missing_required] !has(m, p) && required ==> result2 != nil
 //@   ensures[C18.stringparam_missing_optional] !has(m, p) && !required ==> result2 == nil && !result1 && result0 == ""
 //@   ensures[C18.stringparam_string]  has(m, p) && is(m[p], string) ==> result2 == nil && result1 && result0 == m[p].(string)
+//@   ensures[C18.stringparam_not_given_ok] !result1 && !required ==> result2 == nil
 //@   ensures[C18.stringparam_illtyped] has(m, p) && !is(m[p], string) && !is(m[p], []interface{}) ==> result2 != nil
 //@   ghost-ensures failed == (old(failed) || result2 != nil)
 //@   also-modifies failed
